@@ -17,7 +17,7 @@ func init() {
 	Register(&Profile{Prop: "C04", Fatal: []string{"C04."}, Run: runC04, Core: coreC04})
 }
 
-const c04NumMut = 21
+const c04NumMut = 22
 
 func coreC04(tier string) []RunSpec {
 	var out []RunSpec
@@ -143,6 +143,9 @@ func (m *MW) StepForge(forceMut, forceVia int) {
 	case 15: // Y itself as C (k=1)
 		pj["C"] = hY(p.Secret)
 		desc = "C = Y"
+	case 21: // the genuine point followed by characters that are not part of any point encoding
+		pj["C"] = p.C + []string{"zz", "0", " ", "\n", "0x", "--", "g"}[m.T.Choose("forge.tail", 7)]
+		desc = "C with a trailing non-point tail"
 	case 19, 20:
 		// a proof the mint really signed (it signs blindly) whose secret is longer than 512 BYTES:
 		// 513 ASCII bytes (19), or multi-byte characters that are more than 512 bytes but fewer
